@@ -1,13 +1,20 @@
-"""Translator: the straight-line functions of pyemv (ac.py, sm.py, cvv.py, kd.py except the tree, the two
-padding functions of mac.py, xor and odd_parity of tools.py) -> Lean definitions over the Python prelude.
+"""Translator: 21 functions of pyemv -> Lean definitions over the Python prelude: all of tools.py
+(xor, odd_parity, adjust_key_parity, key_check_digits, encrypt_tdes_cbc, encrypt_tdes_ecb), all of mac.py
+(both paddings and mac_iso9797_3 with its two live cipher contexts), all of ac.py, sm.py and cvv.py, and
+kd.py except the EMV2000 tree.
 
 The accepted subset is what those functions are written in: guards (`if … : raise …`), `None` defaults,
 `isinstance(x, bytes)` decoding, slices with constant/`len` bounds, `+`/`*` on bytes and str, integer
-arithmetic, `to_bytes`/`from_bytes`, the string helpers kd.py uses, calls into the other modules, and
-if/elif chains that return.  Anything else makes the translation fail loudly (exit 3) — nothing is guessed.
-Exception *messages* are not translated (only the class).  The functions not translated (`mac_iso9797_3`,
-the TDES helpers, `adjust_key_parity`, `key_check_digits`, the EMV2000 tree, all of tlv.py) stay
-hand-modelled and differentially tied; calls to them go to the hand-written model.
+arithmetic (with ZeroDivisionError / OverflowError explicit), `to_bytes`/`from_bytes`, the string helpers
+kd.py uses, if/elif chains that return or assign, the one loop form `for i, x in enumerate(A): if c(x): A[i] op= k`
+(a map, because each iteration touches element i only), calls into the other modules, and the
+`cryptography` objects: `Cipher(TripleDES(K), CBC(iv)|ECB())` becomes a key schedule (`tdesKeys`) plus the IV
+length check, `.encryptor()/.decryptor()` a chaining value that every `.update(x)` reads and writes, so that
+"the same encryptor goes on" in mac_iso9797_3 is translated, not assumed.  Anything else makes the
+translation fail loudly (exit 3) — nothing is guessed.  Exception *messages* are not translated (only the
+class).  Not translated: the EMV2000 tree (nested closures, recursion) and all of tlv.py (loops,
+try/except); they stay hand-modelled and differentially tied.  What `tdesKeys`, `encBlock`, `cbcEncUpdate`,
+`a2bHex`, `sha1Hex` … *mean* is the hand-written prelude (modelled OpenSSL / CPython behaviour).
 
 `lean/PyemvGen/ModGen.lean` is regenerated from the repository's current source on every run;
 `lean/PyemvGen/ModRefines.lean` (committed) proves `Gen.f = Model.f` for every translated function.
@@ -19,34 +26,35 @@ import os
 import sys
 
 FUNCS = {
-    "tools": ["xor", "odd_parity"],
-    "mac": ["pad_iso9797_1", "pad_iso9797_2"],
+    "tools": ["xor", "odd_parity", "adjust_key_parity", "key_check_digits", "encrypt_tdes_cbc", "encrypt_tdes_ecb"],
+    "mac": ["pad_iso9797_1", "pad_iso9797_2", "mac_iso9797_3"],
     "ac": ["generate_ac", "generate_arpc_1", "generate_arpc_2"],
     "kd": ["derive_icc_mk_a", "derive_icc_mk_b", "derive_common_sk", "derive_visa_sm_sk"],
     "sm": ["generate_command_mac", "encrypt_command_data", "format_vis_pin_block", "format_iso9564_2_pin_block"],
     "cvv": ["generate_cvc3"],
 }
-ANN = {"bytes": "B", "_typing.Union[bytes, bytearray]": "B", "_typing.Union[bytes, str]": "SB",
+ANN = {"__int_param__": "I", "bytes": "B", "_typing.Union[bytes, bytearray]": "B", "_typing.Union[bytes, str]": "SB",
        "_typing.Optional[_typing.Union[bytes, str]]": "OSB", "_typing.Optional[bytes]": "OB",
        "_typing.Optional[int]": "ON", "int": "N", "_typing.Optional[PaddingType]": "OPT",
        "EncryptionType": "ET", "str": "S"}
-LEAN_TY = {"B": "Bytes", "S": "PyStr", "SB": "StrOrBytes", "OSB": "Option StrOrBytes", "OB": "Option Bytes",
+LEAN_TY = {"U8": "UInt8", "B": "Bytes", "S": "PyStr", "SB": "StrOrBytes", "OSB": "Option StrOrBytes", "OB": "Option Bytes",
            "ON": "Option Nat", "N": "Nat", "OPT": "Option PaddingType", "PT": "PaddingType", "ET": "EncryptionType",
            "OS": "Option PyStr", "I": "Int"}
 # hand-modelled callees: name -> (lean, arg kinds, result kind, monadic)
-EXTERN = {
-    "_tools.encrypt_tdes_ecb": ("encryptTdesEcb", ["B", "B"], "B", True),
-    "_tools.encrypt_tdes_cbc": ("encryptTdesCbc", ["B", "B", "B"], "B", True),
-    "_encrypt_tdes_cbc": ("encryptTdesCbc", ["B", "B", "B"], "B", True),
-    "_tools.adjust_key_parity": ("adjustKeyParity", ["B"], "B", False),
-    "_mac.mac_iso9797_3": ("mac3", ["B", "B", "B", "I", "ON"], "B", True),
-    "_mac_iso9797_3": ("mac3", ["B", "B", "B", "I", "ON"], "B", True),
-}
+EXTERN = {}
 # generated callees, filled while translating: python name -> (lean name, arg kinds, result kind)
 GEN = {}
-ALIASES = {"_tools.xor": "tools.xor", "_xor": "tools.xor", "_mac.pad_iso9797_2": "mac.pad_iso9797_2",
+ALIASES = {"_tools.encrypt_tdes_ecb": "tools.encrypt_tdes_ecb", "_tools.encrypt_tdes_cbc": "tools.encrypt_tdes_cbc",
+           "_encrypt_tdes_cbc": "tools.encrypt_tdes_cbc", "_tools.adjust_key_parity": "tools.adjust_key_parity",
+           "_mac.mac_iso9797_3": "mac.mac_iso9797_3", "_mac_iso9797_3": "mac.mac_iso9797_3", "odd_parity": "tools.odd_parity",
+           "_tools.xor": "tools.xor", "_xor": "tools.xor", "_mac.pad_iso9797_2": "mac.pad_iso9797_2",
            "_mac.pad_iso9797_1": "mac.pad_iso9797_1", "pad_iso9797_1": "mac.pad_iso9797_1",
            "derive_icc_mk_a": "kd.derive_icc_mk_a"}
+
+
+# integer parameters modelled as `Int` (a selector whose guard must also reject negative values); every other
+# `int` parameter is a size or a count and is modelled as `Nat`
+INT_PARAMS = {("mac", "mac_iso9797_3", "padding")}
 
 
 class Unsupported(Exception):
@@ -70,6 +78,8 @@ class Fn:
         self.mod = mod; self.fn = fn
         self.types = {}
         self.tmp = 0
+        self.ciph = {}      # cipher objects: name -> (ks var, mode, iv term)
+        self.ctx = {}       # live encryptor / decryptor contexts: name -> dict(ks, mode, dir, st)
 
     def fresh(self):
         self.tmp += 1
@@ -146,6 +156,8 @@ class Fn:
                 sym = {ast.Eq: "=", ast.NotEq: "≠", ast.Lt: "<", ast.LtE: "≤", ast.Gt: ">", ast.GtE: "≥"}.get(type(op))
                 if sym:
                     return f"({a} {sym} {b})", "P"
+            if ka == "I" and const_int(e.comparators[0]) is not None and isinstance(op, (ast.Eq, ast.NotEq)):
+                return f"({a} {'=' if isinstance(op, ast.Eq) else '≠'} ({const_int(e.comparators[0])} : Int))", "P"
             if ka == "ET" and isinstance(op, ast.Eq) and kb == "ET":
                 return f"({a} = {b})", "P"
             raise Unsupported("comparison " + ast.unparse(e))
@@ -173,6 +185,8 @@ class Fn:
     def coerce(self, term, have, want):
         if have == want:
             return term
+        if want == "N" and have == "U8":
+            return f"{term}.toNat"
         if want == "I" and have == "N":
             return f"(({term} : Nat) : Int)"
         if want == "ON" and have == "N":
@@ -197,6 +211,8 @@ class Fn:
     def call(self, e, out, ind):
         f = e.func
         fs = ast.unparse(f)
+        if fs == "_Cipher":
+            raise Unsupported("cipher object outside an assignment")
         if e.keywords:
             raise Unsupported("keyword arguments in " + ast.unparse(e))
         if fs == "len":
@@ -206,8 +222,10 @@ class Fn:
             if ka == "SB":
                 return f"{a}.len", "N"
             raise Unsupported("len of " + ka)
-        if fs == "bytearray" and len(e.args) == 1:
+        if fs in ("bytearray", "bytes") and len(e.args) == 1 and not e.keywords:
             return self.expr(e.args[0], out, ind)
+        if isinstance(f, ast.Attribute) and f.attr == "update" and len(e.args) == 1:
+            return self.ctx_update(f.value, e.args[0], out, ind)
         if fs == "int.from_bytes" or (isinstance(f, ast.Attribute) and f.attr == "from_bytes"):
             a, ka = self.expr(e.args[0], out, ind)
             order = ast.unparse(e.args[1])
@@ -286,8 +304,7 @@ class Fn:
         if key in EXTERN:
             lean, kinds, rk, mon = EXTERN[key]
         elif key in GEN or (self.mod + "." + fs) in GEN:
-            lean, kinds, rk = GEN.get(key) or GEN[self.mod + "." + fs]
-            mon = True
+            lean, kinds, rk, mon = GEN.get(key) or GEN[self.mod + "." + fs]
         else:
             raise Unsupported("call " + fs)
         if len(e.args) > len(kinds):
@@ -305,6 +322,66 @@ class Fn:
         if mon:
             return self.bind(call, rk, out, ind)
         return f"({call})", rk
+
+    # ---------------------------------------------------------------- cipher objects of `cryptography`
+    def cipher_new(self, name, e, out, ind):
+        """`name = _Cipher(_algorithms.TripleDES(K), _modes.CBC(IV) | _modes.ECB(), backend=…)`"""
+        if len(e.args) != 2 or any(k.arg != "backend" for k in e.keywords):
+            raise Unsupported("Cipher(...) arguments")
+        alg, mode = e.args
+        if not (isinstance(alg, ast.Call) and ast.unparse(alg.func) == "_algorithms.TripleDES" and len(alg.args) == 1):
+            raise Unsupported("cipher algorithm " + ast.unparse(alg))
+        k, kk = self.expr(alg.args[0], out, ind)
+        if kk != "B":
+            raise Unsupported("key kind")
+        ks = f"ks_{name}"
+        out.append(f"{ind}let {ks} ← tdesKeys {k}")
+        if isinstance(mode, ast.Call) and ast.unparse(mode.func) == "_modes.ECB" and not mode.args:
+            self.ciph[name] = (ks, "ecb", None)
+        elif isinstance(mode, ast.Call) and ast.unparse(mode.func) == "_modes.CBC" and len(mode.args) == 1:
+            iv, kiv = self.expr(mode.args[0], out, ind)
+            if kiv != "B":
+                raise Unsupported("IV kind")
+            ivv = f"iv_{name}"
+            out.append(f"{ind}let {ivv} : Bytes := {iv}")
+            out.append(f"{ind}if {ivv}.length ≠ 8 then throw .valueError")
+            self.ciph[name] = (ks, "cbc", ivv)
+        else:
+            raise Unsupported("cipher mode " + ast.unparse(mode))
+
+    def ctx_new(self, name, e, out, ind):
+        """`name = cipher.encryptor()` / `.decryptor()`"""
+        f = e.func
+        c = f.value.id
+        if c not in self.ciph:
+            raise Unsupported("unknown cipher object " + c)
+        ks, mode, iv = self.ciph[c]
+        st = f"st_{name}"
+        if mode == "cbc":
+            out.append(f"{ind}let {st} : Bytes := {iv}")
+        self.ctx[name] = {"ks": ks, "mode": mode, "dir": "enc" if f.attr == "encryptor" else "dec", "st": st}
+
+    def ctx_update(self, target, arg, out, ind):
+        a, ka = self.expr(arg, out, ind)
+        if ka != "B":
+            raise Unsupported("update argument kind")
+        if isinstance(target, ast.Name) and target.id in self.ctx:
+            c = self.ctx[target.id]
+        elif isinstance(target, ast.Call) and isinstance(target.func, ast.Attribute) and target.func.attr in ("encryptor", "decryptor") \
+                and isinstance(target.func.value, ast.Name) and target.func.value.id in self.ciph and not target.args:
+            ks, mode, iv = self.ciph[target.func.value.id]
+            c = {"ks": ks, "mode": mode, "dir": "enc" if target.func.attr == "encryptor" else "dec", "st": iv, "anon": True}
+        else:
+            raise Unsupported("update on " + ast.unparse(target))
+        blk = ("encBlock " if c["dir"] == "enc" else "decBlock ") + c["ks"]
+        if c["mode"] == "ecb":
+            return f"(ecbUpdate ({blk}) {a})", "B"
+        fn = "cbcEncUpdate" if c["dir"] == "enc" else "cbcDecUpdate"
+        r = self.fresh()
+        out.append(f"{ind}let {r} : Bytes × Bytes := {fn} ({blk}) {c['st']} {a}")
+        if not c.get("anon"):
+            out.append(f"{ind}let {c['st']} : Bytes := {r}.2")
+        return f"{r}.1", "B"
 
     # ---------------------------------------------------------------- statements
     def exc_class(self, st):
@@ -338,6 +415,14 @@ class Fn:
                 i += 1; continue
             if isinstance(st, ast.Assign) and len(st.targets) == 1:
                 tg = st.targets[0]
+                if isinstance(tg, ast.Name) and isinstance(st.value, ast.Call) and ast.unparse(st.value.func) == "_Cipher":
+                    self.cipher_new(tg.id, st.value, out, ind)
+                    i += 1; continue
+                if isinstance(tg, ast.Name) and isinstance(st.value, ast.Call) and isinstance(st.value.func, ast.Attribute) \
+                        and st.value.func.attr in ("encryptor", "decryptor") and isinstance(st.value.func.value, ast.Name) \
+                        and not st.value.args:
+                    self.ctx_new(tg.id, st.value, out, ind)
+                    i += 1; continue
                 if isinstance(tg, ast.Name):
                     t, k = self.expr(st.value, out, ind)
                     out.append(f"{ind}let {v(tg.id)} : {LEAN_TY[k]} := {t}")
@@ -351,6 +436,9 @@ class Fn:
             if isinstance(st, ast.If):
                 if self.if_stmt(st, rest, out, ind, ret_kind):
                     return True
+                i += 1; continue
+            if isinstance(st, ast.For):
+                self.for_enumerate(st, out, ind)
                 i += 1; continue
             raise Unsupported("statement " + type(st).__name__ + ": " + ast.unparse(st)[:80])
         return False
@@ -443,28 +531,33 @@ class Fn:
             out.append(f"{ind}else do")
             out += else_out
             return True
-        # branches that only assign
+        # branches that assign (an else branch may instead raise on every path)
         self.types = dict(saved)
         names_b = self.assigned_names(st.body)
-        names_e = self.assigned_names(st.orelse) if st.orelse else []
+        b_out = []; self.types = dict(saved)
+        self.block(st.body, b_out, ind + "    ", ret_kind)
+        tb = dict(self.types)
+        e_out = []; self.types = dict(saved)
+        else_raises = False
         if st.orelse:
+            else_raises = self.block(st.orelse, e_out, ind + "    ", ret_kind)
+            if else_raises and any(ln.strip().startswith("pure ") for ln in e_out):
+                raise Unsupported("else branch returns a value while the if branch falls through")
+            te = dict(self.types)
+        if st.orelse and not else_raises:
+            names_e = self.assigned_names(st.orelse)
             if sorted(names_b) != sorted(names_e):
                 raise Unsupported("if/else assign different names")
+            live = names_b
+            for n in live:
+                if tb[n] != te[n]:
+                    raise Unsupported("if/else give different kinds to " + n)
+        elif st.orelse:
             live = names_b
         else:
             live = [n for n in names_b if n in saved]
             if not live:
                 raise Unsupported("if without else introduces only new names")
-        b_out = []; self.types = dict(saved)
-        self.block(st.body, b_out, ind + "    ", ret_kind)
-        tb = dict(self.types)
-        e_out = []; self.types = dict(saved)
-        if st.orelse:
-            self.block(st.orelse, e_out, ind + "    ", ret_kind)
-            te = dict(self.types)
-            for n in live:
-                if tb[n] != te[n]:
-                    raise Unsupported("if/else give different kinds to " + n)
         pat = "(" + ", ".join(v(n) for n in live) + ")" if len(live) > 1 else v(live[0])
         tys = " × ".join(LEAN_TY[tb[n]] for n in live)
         out.append(f"{ind}let {pat} : {tys} ← (if {c} then do")
@@ -472,7 +565,10 @@ class Fn:
         out.append(f"{ind}    pure {pat}")
         out.append(f"{ind}  else do")
         out += e_out
-        out.append(f"{ind}    pure {pat})")
+        if not else_raises:
+            out.append(f"{ind}    pure {pat})")
+        else:
+            out[-1] += ")"
         self.types = dict(saved)
         for n in live:
             self.types[n] = tb[n]
@@ -489,6 +585,36 @@ class Fn:
         if k == "N":
             return f"({c} ≠ 0)", "P"
         raise Unsupported("condition of kind " + k)
+
+    def for_enumerate(self, st, out, ind):
+        """`for i, x in enumerate(A): if cond(x): A[i] op= c` — each iteration reads and writes element i only,
+        so the loop is a map over A"""
+        if st.orelse or not (isinstance(st.iter, ast.Call) and ast.unparse(st.iter.func) == "enumerate" and len(st.iter.args) == 1
+                             and isinstance(st.iter.args[0], ast.Name) and isinstance(st.target, ast.Tuple) and len(st.target.elts) == 2):
+            raise Unsupported("for loop " + ast.unparse(st)[:60])
+        arr = st.iter.args[0].id
+        iv_, xv = st.target.elts[0].id, st.target.elts[1].id
+        if self.types.get(arr) != "B" or len(st.body) != 1 or not isinstance(st.body[0], ast.If) or st.body[0].orelse:
+            raise Unsupported("for loop body")
+        inner = st.body[0]
+        if len(inner.body) != 1 or not isinstance(inner.body[0], ast.AugAssign):
+            raise Unsupported("for loop body")
+        aug = inner.body[0]
+        if not (isinstance(aug.target, ast.Subscript) and ast.unparse(aug.target.value) == arr and ast.unparse(aug.target.slice) == iv_
+                and const_int(aug.value) is not None and isinstance(aug.op, (ast.BitXor, ast.BitOr, ast.BitAnd))):
+            raise Unsupported("for loop update " + ast.unparse(aug))
+        for n in ast.walk(inner.test):
+            if isinstance(n, ast.Name) and n.id in (arr, iv_):
+                raise Unsupported("loop condition reads the array or the index")
+        saved = dict(self.types)
+        self.types[xv] = "U8"
+        cond_out = []
+        c, _ = self.truthy(inner.test, cond_out, ind)
+        if cond_out:
+            raise Unsupported("monadic call in a loop condition")
+        self.types = saved
+        op = {ast.BitXor: "^^^", ast.BitOr: "|||", ast.BitAnd: "&&&"}[type(aug.op)]
+        out.append(f"{ind}let {v(arr)} : Bytes := {v(arr)}.map fun {v(xv)} => if {c} then {v(xv)} {op} {const_int(aug.value)} else {v(xv)}")
 
     def assigned_names(self, stmts):
         out = []
@@ -532,7 +658,8 @@ def translate(repo):
                 ann = ast.unparse(p.annotation) if p.annotation else None
                 if ann not in ANN:
                     raise Unsupported(f"{mod}.{name}: annotation {ann}")
-                F.types[p.arg] = ANN[ann]; kinds.append(ANN[ann])
+                k = "I" if (mod, name, p.arg) in INT_PARAMS else ANN[ann]
+                F.types[p.arg] = k; kinds.append(k)
             rann = ast.unparse(fn.returns) if fn.returns else None
             rk = {"bytes": "B", "str": "S", "int": "N"}.get(rann)
             if rk is None:
@@ -541,10 +668,15 @@ def translate(repo):
             if not F.block(fn.body, body, "  ", rk):
                 raise Unsupported(f"{mod}.{name}: a path does not return")
             sig = " ".join(f"({v(p.arg)} : {LEAN_TY[k]})" for p, k in zip(a.args, kinds))
-            out.append(f"def {name} {sig} : R {LEAN_TY[rk]} := do")
-            out += body
+            pure = not any(("←" in ln) or ("throw" in ln) or (" if " in ln) or ln.strip().startswith("if ") for ln in body)
+            if pure:
+                out.append(f"def {name} {sig} : {LEAN_TY[rk]} :=")
+                out += [ln.replace("  pure ", "  ", 1) if ln.strip().startswith("pure ") else ln for ln in body]
+            else:
+                out.append(f"def {name} {sig} : R {LEAN_TY[rk]} := do")
+                out += body
             out.append("")
-            GEN[f"{mod}.{name}"] = (f"Gen.{mod}.{name}", kinds, rk)
+            GEN[f"{mod}.{name}"] = (f"Gen.{mod}.{name}", kinds, rk, not pure)
         out.append(f"end {mod}")
         out.append("")
     out.append("end Pyemv.Gen")
